@@ -46,7 +46,8 @@ impl<KT: DbMapKeyType> FileDbXxxInner<KT> {
             key_file,
             val_file,
             htx_file,
-            dirty: false,
+            // opening may have created the files and written their headers.
+            dirty: true,
             _phantom: std::marker::PhantomData,
         })
     }
@@ -288,6 +289,7 @@ impl<KT: DbMapKeyType> DbXxxObjectSafe<KT> for FileDbXxxInner<KT> {
     }
     #[inline]
     fn put_kt(&mut self, key_kt: &KT, value: &[u8]) -> Result<()> {
+        self.dirty = true;
         let hash = HashValue::new(key_kt.hash_value());
         let opt = self.find_in_hash_buckets_kt(hash, key_kt)?;
         if let Some((key_offset, _prev_key_offset)) = opt {
@@ -315,6 +317,7 @@ impl<KT: DbMapKeyType> DbXxxObjectSafe<KT> for FileDbXxxInner<KT> {
         let hash = HashValue::new(key_kt.hash_value());
         let opt = self.find_in_hash_buckets_kt(hash, key_kt)?;
         if let Some((key_offset, _prev_key_offset)) = opt {
+            self.dirty = true;
             let key_piece = self.key_file.read_piece(key_offset)?;
             let value = self
                 .val_file
